@@ -70,6 +70,7 @@ struct Ctx {
     llvm::raw_ostream *OS = nullptr;
     std::set<const Decl *> doneFns;
     std::set<const Decl *> doneDecls;
+    std::set<const Decl *> doneTmpl;
     std::set<const Decl *> doneClasses;
     PrintingPolicy PP{LangOptions()};
 
@@ -843,6 +844,22 @@ public:
     }
     bool VisitFunctionDecl(FunctionDecl *FD) { handle(FD); return true; }
     bool VisitLambdaExpr(LambdaExpr *LE) { handle(LE->getCallOperator()); return true; }
+    // function templates at namespace scope (the public algorithm overloads): how many specializations of each overload
+    // have an instantiated body in this unit.  Lets a rule demand that the drivers cover every overload.
+    bool VisitFunctionTemplateDecl(FunctionTemplateDecl *FTD) {
+        const FunctionDecl *TD = FTD->getTemplatedDecl();
+        if (!TD || !FTD->isThisDeclarationADefinition() || !C.inRoots(FTD->getLocation())) return true;
+        if (isa<CXXMethodDecl>(TD) || TD->getDeclContext()->isDependentContext()) return true;
+        if (!C.doneTmpl.insert(FTD->getCanonicalDecl()).second) return true;
+        unsigned n = 0;
+        for (auto *S : FTD->specializations())
+            if (S->doesThisDeclarationHaveABody() || S->isDefined()) ++n;
+        std::string o = "{\"t\":\"tmpl\",\"p\":" + jstr(C.pname(TD)) + ",\"file\":" + jstr(C.fileOf(FTD->getLocation())) +
+                        ",\"ln\":" + std::to_string(C.lineOf(FTD->getLocation())) + ",\"np\":" + std::to_string(TD->getNumParams()) +
+                        ",\"nspec\":" + std::to_string(n) + "}\n";
+        *C.OS << o;
+        return true;
+    }
     bool VisitCXXRecordDecl(CXXRecordDecl *RD) {
         if (RD->isThisDeclarationADefinition() && !RD->isDependentContext() && !RD->isInvalidDecl() && C.inRoots(RD->getLocation()))
             C.emitClass(RD);
